@@ -652,7 +652,9 @@ def native_crate(crate, prop, tier, scratch):
         res['hard'].append(dict(kind='build', msg='native tests did not run (%d of %d): %s %s' % (len(ran), len(names), tail, out[-800:])))
     for (tn, st_) in ran:
         if st_ == 'FAILED' and not any(tn.endswith(x['name'].split('#')[0]) for x in res['failures']) and not res['failures']:
-            res['failures'].append(dict(name='native:' + tn, props=None, cls='P', desc='test failed/panicked: ' + tn, concrete=dict(native_failing_input=out[-1500:])))
+            pm = re.search(r"thread '[^']*%s' [^\n]*panicked at ([^\n]*)\n([^\n]*)" % re.escape(tn.split('::')[-1]), out)
+            detail = ('panicked at %s: %s' % (pm.group(1).split('/ws/')[-1], pm.group(2))) if pm else out[-1500:]
+            res['failures'].append(dict(name='native:' + tn, props=None, cls='P', desc='test failed/panicked: ' + tn, concrete=dict(native_failing_input=detail)))
     res['meta'] = metas
     if res['failures']:
         res['status'] = 'failed'
